@@ -317,7 +317,7 @@ for _n, _b in [("timestamp", "8 symbolic bytes, any prefix length"), ("node_id",
     _c13h.append(H(f"c13_decode_{_n}", "node", "wire::verif_kani::c13", "wire_c13", tiers=Q, covers=1, stubs=_OID,
         functions=[f"<{_n} as wire::Decode>::decode"], bounds=_b + ": no panic / overflow / out-of-bounds / failed assert"))
 _c15h = []
-for _n in ["c15_address_ipv4", "c15_address_ipv6", "c15_address_dns1", "c15_address_dns2", "c15_address_unknown"]:
+for _n in ["c15_address_ipv4", "c15_address_ipv6", "c15_address_dns1", "c15_address_dns2"]:
     _c15h.append(H(_n, "node", "wire::verif_kani::c15", "wire_c15", tiers=Q, covers=1, stubs=[],
         functions=["wire::deserialize::<Address>", "<Address as wire::Decode>::decode", "<Address as wire::Encode>::encode", "<String as wire::Decode>::decode"],
         bounds=f"layout {_n}: address type tag and host-name length literal, host bytes and port symbolic: address bytes that decode re-encode to exactly the same bytes"))
